@@ -187,9 +187,13 @@ func (m *RWMutex) RUnlock() {
 
 type rlocker RWMutex
 
-func (r *rlocker) Lock()   { (*RWMutex)(r).RLock() }
+//go:norace
+func (r *rlocker) Lock() { (*RWMutex)(r).RLock() }
+
+//go:norace
 func (r *rlocker) Unlock() { (*RWMutex)(r).RUnlock() }
 
+//go:norace
 func (m *RWMutex) RLocker() Locker { return (*rlocker)(m) }
 
 // ---- Cond --------------------------------------------------------------------------------
@@ -208,6 +212,7 @@ func (t *condTicket) blocked(*Sched) bool { return !t.notified }
 //go:norace
 func (t *condTicket) meta() bool { return false }
 
+//go:norace
 func NewCond(l Locker) *Cond { return &Cond{L: l} }
 
 //go:norace
@@ -329,6 +334,7 @@ func (o *Once) blocked(*Sched) bool { return o.running }
 //go:norace
 func (o *Once) meta() bool { return false }
 
+//go:norace
 func (o *Once) Do(f func()) {
 	s := world
 	if s == nil {
@@ -348,11 +354,13 @@ func (o *Once) Do(f func()) {
 	o.o.Do(f)
 }
 
+//go:norace
 func OnceFunc(f func()) func() {
 	var o Once
 	return func() { o.Do(f) }
 }
 
+//go:norace
 func OnceValue[T any](f func() T) func() T {
 	var (
 		o Once
@@ -364,6 +372,7 @@ func OnceValue[T any](f func() T) func() T {
 	}
 }
 
+//go:norace
 func OnceValues[T1, T2 any](f func() (T1, T2)) func() (T1, T2) {
 	var (
 		o  Once
